@@ -63,6 +63,7 @@ func VerifC15_SkipRule() {
 	zz.Assume(start > 0)
 	zz.Assume(start < 1<<60)
 	c15Config = ConfigFile{Scenario: c15Str("scn"), Limits: c15Limits(), Stages: stages}
+	zz.Assume(*c15Config.Limits.Concurrency >= 1)
 	withMF := zz.Bool("hasMaxFailures")
 	if withMF {
 		c15Config.Limits.MaxFailures = c15U64(zz.Uint64("limits.maxFailures"))
@@ -150,6 +151,7 @@ func VerifC15_ConstantDefaults() {
 		def.Jitter = c15F(0)
 	}
 	c15Config = ConfigFile{Scenario: c15Str("scn"), Limits: c15Limits(), Default: def, Stages: []Stage{st}}
+	zz.Assume(*c15Config.Limits.Concurrency >= 1)
 	rs, err := ParseConfigFile(nil, zz.Time(1<<40))
 	has := func(a, b string) bool { return zz.Bool("has.stage."+a) || zz.Bool("has.default."+b) }
 	complete := has("mode", "mode") && has("duration", "duration") && has("rate", "rate") && has("distribution", "distribution")
@@ -182,3 +184,52 @@ func VerifC15_ConstantDefaults() {
 //verif:unroll 12
 //verif:timeout 120
 func VerifC14_ConfigFileNeverCrashes() { VerifC15_ConstantDefaults() }
+
+// VerifC14_RampStagePresence: a single ramp stage in which start-rate, end-rate and distribution are independently
+// present or omitted in the stage and in the default section (2^6 patterns): rejected with an error exactly when one
+// of them is missing in both places, otherwise a runnable stage; never a crash.
+//
+//verif:replace gopkg.in/yaml.v3.Unmarshal c15Unmarshal
+//verif:noreplay yaml.Unmarshal is replaced by a harness stand-in
+//verif:unroll 12
+//verif:timeout 120
+func VerifC14_RampStagePresence() {
+	present := func(name string) bool { return zz.Bool("has." + name) }
+	st := Stage{Mode: c15Str("ramp"), Duration: c15Dur(10 * time.Second)}
+	var def Stage
+	if present("stage.start") {
+		st.StartRate = c15Str("1/s")
+	}
+	if present("default.start") {
+		def.StartRate = c15Str("2/s")
+	}
+	if present("stage.end") {
+		st.EndRate = c15Str("10/s")
+	}
+	if present("default.end") {
+		def.EndRate = c15Str("20/s")
+	}
+	if present("stage.distribution") {
+		st.Distribution = c15Str("none")
+	}
+	if present("default.distribution") {
+		def.Distribution = c15Str("none")
+	}
+	c15Config = ConfigFile{Scenario: c15Str("scn"), Limits: c15Limits(), Default: def, Stages: []Stage{st}}
+	zz.Assume(*c15Config.Limits.Concurrency >= 1)
+	rs, err := ParseConfigFile(nil, zz.Time(1<<40))
+	has := func(a string) bool { return zz.Bool("has.stage."+a) || zz.Bool("has.default."+a) }
+	complete := has("start") && has("end") && has("distribution")
+	zz.Cover("C14.ramp.returned")
+	zz.CoverIf("C14.ramp.accepted", err == nil)
+	zz.Assert("C14.ramp.rejected_iff_required_field_missing_everywhere", (err != nil) == !complete)
+	if err != nil {
+		return
+	}
+	zz.Assert("C14.ramp.accepted_stage_is_runnable", len(rs.Stages) == 1 && rs.Stages[0].IterationDuration > 0 && rs.Stages[0].Rate != nil)
+	want := 2
+	if zz.Bool("has.stage.start") {
+		want = 1
+	}
+	zz.Assert("C15.ramp.own_value_else_default", rs.Stages[0].Rate(zz.Time(1)) == want)
+}
